@@ -287,11 +287,15 @@ _PNG = bytes.fromhex("89504e470d0a1a0a0000000d4948445200000001000000010802000000
                      "000003010100c9fe92ef0000000049454e44ae426082")
 
 
+_base_cache: dict = {}
+
+
 def _odf_base(fmt):
     from . import docrun
-    if fmt == "odf":
-        return (RES / "open_office/formular.odf").read_bytes()
-    return docrun.render(docrun.rich_doc(fmt), fmt)
+    if fmt not in _base_cache:
+        _base_cache[fmt] = ((RES / "open_office/formular.odf").read_bytes() if fmt == "odf"
+                            else docrun.render(docrun.rich_doc(fmt), fmt))
+    return _base_cache[fmt]
 
 
 def _enc_data(p):
@@ -548,8 +552,8 @@ def _folder_bytes(chain):
         b += bytes([len(cid) | (0x20 if props is not None else 0)]) + cid
         if props is not None:
             b += _num(len(props)) + props
-    for i in range(len(chain) - 1):
-        b += _num(i + 1) + _num(i)
+    for i in range(len(chain) - 1):              # bind pairs (inIndex, outIndex): coder i reads what coder i+1 writes
+        b += _num(i) + _num(i + 1)
     return b
 
 
@@ -586,7 +590,8 @@ def build_sevenz(c, rng):
     packed = b"".join(packs)
     if c["hdr"] == "plain":
         return _sevenz_file(packed, h)
-    chain = {"lzma": ["LZMA"], "aes": ["AES"], "aes+lzma": ["AES", "LZMA"]}[c["hdr"]]
+    # 7-Zip lists the main coder first: LZMA (its output is the header), then 7zAES (its input is the packed stream)
+    chain = {"lzma": ["LZMA"], "aes": ["AES"], "lzma+aes": ["LZMA", "AES"]}[c["hdr"]]
     hp = _encode_chain(chain, h, rng)
     eh = b"\x17\x06" + _num(len(packed)) + _num(1) + b"\x09" + _num(len(hp)) + b"\x00"
     eh += b"\x07\x0b" + _num(1) + b"\x00" + _folder_bytes(chain) + b"\x0c" + _num(len(h)) * len(chain)
@@ -692,7 +697,7 @@ def project_sevenz(data):
         chains, sizes = _read_folders(r)
         toks = [_tok(cid) for cid, _ in chains[0]]
         if any(t in ("AES", "AESX") for t in toks):
-            kind = "aes" if len(toks) == 1 else "aes+lzma"
+            kind = "aes" if len(toks) == 1 else "lzma+aes"
             return {"kind": "sevenz", "hdr": kind, "folders": [], "_opaque": True}
         kind = "lzma"
         packed = data[32 + ppos:32 + ppos + psizes[0]]
@@ -843,7 +848,7 @@ def signature(c):
         return (k, tuple((m["fc"], m["fl"], m["dir"], "none" if m["fc"] and m["err"] == "badcrc" else m["err"])
                          for m in c["members"]))
     if k == "sevenz":
-        if c["hdr"] in ("aes", "aes+lzma"):
+        if c["hdr"] in ("aes", "lzma+aes"):
             return (k, c["hdr"])
         return (k, c["hdr"], tuple(tuple(f) for f in c["folders"]))
     if k == "epub":
